@@ -53,6 +53,10 @@ def run(ctx):
         import c13
         ctx.guard("state-reset" + tag, c13.state_reset, ctx, crate, tag)
         ctx.guard("soft-solvables-registered" + tag, soft_registered, ctx, crate, crs, tag)
+        # the forbid clauses only exclude a pair if they are propagated and the verdict machinery is intact, and only if a run that
+        # was interrupted after installing a second candidate is not handed out as a solution (seed C15-12)
+        import core
+        ctx.guard("core" + tag, core.soundness, ctx, crate, crs, tag)      # see rules/core.py
 
 
 def _field_of_recv(b, t, argi=0):
